@@ -57,7 +57,16 @@ def vocab(cfg: dict) -> dict:
             firewalls.append(n["hostname"])
     links = [f"{l['endpoint_a_hostname']}:eth-{l['endpoint_a_port']}<->{l['endpoint_b_hostname']}:eth-{l['endpoint_b_port']}" for l in net.get("links", [])]
     ips = [n["ip_address"] for n in net.get("nodes", []) if "ip_address" in n]
-    return {"hosts": hosts, "routers": routers, "firewalls": firewalls, "links": links, "ips": ips}
+    # the addresses the agents' own ACL actions (router-acl-add-rule / firewall-acl-add-rule) can put into a rule
+    rule_ips: List[str] = []
+    for a in cfg.get("agents", []):
+        for act in ((a.get("action_space") or {}).get("action_map") or {}).values():
+            if isinstance(act, dict) and "acl-add-rule" in str(act.get("action", "")):
+                for k in ("src_ip", "dst_ip"):
+                    x = (act.get("options") or {}).get(k)
+                    if isinstance(x, str) and x.count(".") == 3 and x not in rule_ips:
+                        rule_ips.append(x)
+    return {"hosts": hosts, "routers": routers, "firewalls": firewalls, "links": links, "ips": ips, "rule_ips": rule_ips}
 
 
 SYSTEM_SERVICES = ["dns-client", "ntp-client", "ftp-client", "arp", "icmp"]
@@ -121,8 +130,12 @@ def gen_osp(cfg: dict, rng: Rng, max_hosts: int = 4) -> dict:
             del o[k]  # the documented default then applies
     if v["routers"] or v["firewalls"]:
         ips = rng.shuffle(list(dict.fromkeys(v["ips"])))[:rng.range(0, 5)]
-        o.update({"ip_list": ips, "wildcard_list": ["0.0.0.1", "0.0.0.255"][:rng.range(0, 2)], "port_list": ["HTTP", "POSTGRES_SERVER", "DNS", 0][:rng.range(0, 4)],
-                  "protocol_list": ["ICMP", "TCP", "UDP"][:rng.range(0, 3)], "num_rules": rng.choice([1, 3, 10, 24]), "num_ports": rng.range(0, 4)})
+        if v["rule_ips"] and rng.chance(3, 4):  # list what the agents' ACL actions use, so that rules added by ACTIONS get ids >= 2
+            ips = list(dict.fromkeys(ips + rng.shuffle(v["rule_ips"])[:2]))
+        if ips and rng.chance(1, 2):  # a value listed twice (its last occurrence at the end): ids must still fit the declared Discrete
+            ips = ips + [rng.choice([x for x in ips if x in v["rule_ips"]] or ips)]
+        o.update({"ip_list": ips, "wildcard_list": ["0.0.0.1", "0.0.0.255"][:rng.range(0, 2)], "port_list": ["HTTP", "POSTGRES_SERVER", "DNS", 0][:rng.range(0, 4)] + (["HTTP"] if rng.chance(1, 3) else []),
+                  "protocol_list": ["ICMP", "TCP", "UDP"][:rng.range(0, 3)] + (["TCP"] if rng.chance(1, 3) else []), "num_rules": rng.choice([1, 3, 10, 24]), "num_ports": rng.range(0, 4)})
         o["routers"] = []
         for r in rng.shuffle(v["routers"])[:2]:
             rc: Dict[str, Any] = {"hostname": r}
@@ -571,11 +584,18 @@ def run_recipe(ctx, recipe: dict, chaos: Optional[Callable] = None) -> dict:
             if recipe.get("targeted"):
                 install_midstep(env.game, rng, ctx)
             n = int(env.action_space.n)
+            try:  # the agent's own ACL-editing actions: chosen more often, so that observed ACL positions receive rules through ACTIONS
+                acl_actions = [int(i) for i, a in env.agent.action_manager.action_map.items() if "acl-add-rule" in str(a[0])]
+            except Exception:  # noqa: BLE001
+                acl_actions = []
             burst = 0
             for t in range(steps):
                 if t % 7 == 0:
                     burst = rng.below(n)
                 act = burst if rng.chance(1, 2) else rng.below(n)
+                if acl_actions and rng.chance(1, 4):
+                    act = rng.choice(acl_actions)
+                    ctx.count("env:acl-add-rule-actions-chosen")
                 if use_chaos is not None:
                     use_chaos(env.game, rng)
                 obs, _r, _te, trunc, _info = env.step(act)
